@@ -6,6 +6,9 @@ Three kinds of operations (one line each, self-contained):
   hs d=<i> l=<j> [d2= l2=] [m1|m2|m3=<action>] [eof=0|1] [ch=<seed>]     real handshake() x2 (x4) + scripted MITM
   rg role=<dialer|listener> v=<i> r=<j> pk=<…> sig=<…>                   real handshake() vs rogue endpoint
   nc d=<i> l=<j> dialed=<k|none> [flip=<offset>]                         real negotiate_connection over loopback TCP
+  tp via=<open|dial> host=<ip4|ip6|dns|dns4|dns6> d=<i> l=<j> exp=<k|none>    two real TcpTransports on loopback: the real
+                                                                         Transport::open(id,[addr]) (+negotiate) / dial(id,addr)
+                                                                         with /<host>/tcp/<port>[/p2p/<peer of key k>]
 Payloads are built here by hand (protobuf) with REAL ed25519 signatures obtained from the adapter's `sign`/`pubkey`
 operations (deterministic keys 0..15) before the cases are run.
 """
@@ -17,6 +20,7 @@ AREA = "c01"
 LEAN_PROPS = "Litep2pVerif.Props.C01"
 THEOREMS = ["free_laws", "honest_payload_accepted", "accept_sound", "reject_missing_key", "reject_missing_sig",
             "reject_bad_sig", "reject_undecodable_key", "bound_to_session", "bound_to_identity", "dialed_mismatch",
+            "dialed_mismatch_any_address_family",
             "canonical_id", "honest_accepts", "tamper_no_wrong_identity", "tamper_no_wrong_identity_two_sessions",
             "honest_identity_binds_static", "tamper_receiver_fails", "tamper_no_connection"]
 CONSTS = ["MAX_INLINE_KEY_LENGTH"]
@@ -27,7 +31,10 @@ MANIFEST = {
     "text": "Lean 4 theorems about (a) an operational copy of parse_and_verify_peer_id, the payload decoding of handshake() "
             "and the dialed-peer test of negotiate_connection over a structure of cryptographic parameters with laws as "
             "hypotheses (soundness of acceptance, one theorem per rejection class, binding of the signature to the session "
-            "static key and to the identity, PeerIdMismatch, the peer id is the hash of the RECEIVED key bytes), and (b) a "
+            "static key and to the identity, PeerIdMismatch, the peer id is the hash of the RECEIVED key bytes; where the "
+            "dialed-peer expectation comes from: the TCP address parser on every host family, TcpTransport::dial parsing the "
+            "dialed address, TcpTransport::open parsing the address dial_peer returns — dialed_mismatch_any_address_family: the "
+            "expectation is the /p2p suffix whatever the host component, through both entry points), and (b) a "
             "symbolic Dolev-Yao model of the three-message XX exchange exactly as handshake() performs it (framing, order "
             "of reads/writes/returns) over a free term algebra: honest runs accept, under EVERY attacker function a side "
             "that returns ok P verified a signature of the key encoded in P over the static key its socket is bound to, an "
@@ -35,7 +42,9 @@ MANIFEST = {
             "tampered message 3 yields no connection although the dialer's handshake() returned Ok. Plus correspondence "
             "runs of the real code: parse_and_verify_peer_id on hand-built payloads with real signatures, real handshake() "
             "pairs under a scripted byte-level man-in-the-middle and against a rogue endpoint running the real Noise code "
-            "with forged payloads, real negotiate_connection over loopback TCP; and a property-level oracle that knows "
+            "with forged payloads, real negotiate_connection over loopback TCP, two real TcpTransports on loopback driven through "
+            "the real Transport::open (+negotiate) and Transport::dial with /ip4, /ip6, /dns, /dns4, /dns6 addresses x expected "
+            "peer right / wrong / absent; and a property-level oracle that knows "
             "which identity key signed which static key (recorded by a guarded hook at the moment of signing).",
     "note": "Trusted: Lean kernel; axioms propext/Classical.choice/Quot.sound; the hand-written models and their tie "
             "(sampled/exhaustive differential runs through adapter src/verif/c01.rs); ed25519, X25519, ChaCha20-Poly1305, "
@@ -54,13 +63,18 @@ RULE = ("pv: honest payloads for keys 0..15 and random static keys; missing key 
         "quick, incl. both length-prefix bytes; truncation and cut at every offset in thorough; extension; drop), with and "
         "without EOF propagation, with random chunking and Pending injection; two concurrent sessions with every combination "
         "of swap/from2. rg: rogue dialer and listener with every forged (key, signature) combination incl. relayed payloads. "
-        "nc: dialed id equal/different/none, message-3 tampering on the TCP stream. A case is non-trivial if it contains an "
+        "nc: dialed id equal/different/none, message-3 tampering on the TCP stream. tp: TcpTransport::open and ::dial on "
+        "loopback for each of /ip4/127.0.0.1, /ip6/::1, /dns/localhost, /dns4/localhost, /dns6/localhost x /p2p suffix = the "
+        "listener's id / another id / absent (a name that does not resolve or a missing loopback family is the distinct "
+        "observation unresolved/unavailable, never an alarm). A case is non-trivial if it contains an "
         "accepted and a rejected observation; distinct = distinct transcripts by SHA-256")
 TRUSTED_BASE = ["Lean 4.33 kernel", "axioms: propext, Classical.choice, Quot.sound only",
                 "hand-written models Model/Noise/Identity.lean, Model/Noise/XX.lean (and C18's peer id, C19's protobuf models) tied "
                 "to crypto/noise/mod.rs by this correspondence run",
                 "adapter /repo/src/verif/c01.rs (scripted MITM, rogue endpoint, static-key recorder hook in NoiseContext::assemble), "
-                "src/verif/c01_tcp.rs, harness, verif.py, checks/c01.py",
+                "src/verif/c01_tcp.rs (incl. the two-transport loopback rig of `tp`: listener task accepting every pending inbound "
+                "connection, hickory resolver from the system configuration, `localhost` answered locally), harness, verif.py, "
+                "checks/c01.py",
                 "ed25519 (sign/verify/point validity) is a parameter with laws (verify∘sign, a signature binds its key and message) — "
                 "hypotheses satisfied by the free instance; the run takes verify/point validity of each triple from ed25519-dalek",
                 "X25519/HKDF/ChaCha20-Poly1305/SHA-256 and snow's XX state machine idealised as a free term algebra (DH commutes by "
@@ -583,6 +597,23 @@ def nc_ops(rng, full):
     return ops
 
 
+HOSTS = ["ip4", "ip6", "dns", "dns4", "dns6"]
+
+
+def tp_ops(rng, full):
+    """Every address family x both entry points x expected peer right / wrong / absent."""
+    ops = []
+    for _ in range(1 if not full else 4):
+        for via in ("open", "dial"):
+            for host in HOSTS:
+                d, l = rng.sample(range(NKEYS), 2)
+                o = rng.choice([x for x in range(NKEYS) if x not in (d, l)])
+                ops += [f"tp via={via} host={host} d={d} l={l} exp={l}", f"tp via={via} host={host} d={d} l={l} exp={o}"]
+                ops.append(f"tp via={via} host={host} d={d} l={l} exp={rng.choice(['none', d])}")
+    rng.shuffle(ops)
+    return ops
+
+
 def chunks(ops, n):
     return [ops[i:i + n] for i in range(0, len(ops), n)]
 
@@ -602,6 +633,7 @@ def gen_cases(rng, tier):
         yield from chunks([rg_op(rng) for _ in range(60)], 12)
         if NC_READY:
             yield from chunks(nc_ops(rng, False), 5)
+            yield from chunks(tp_ops(rng, False), 6)
     elif tier == "search":
         yield from gen_pv_cases(rng, 60, 12)
         for _ in range(150):
@@ -615,6 +647,7 @@ def gen_cases(rng, tier):
         yield from chunks([rg_op(rng) for _ in range(1500)], 15)
         if NC_READY:
             yield from chunks(nc_ops(rng, True), 6)
+            yield from chunks(tp_ops(rng, True), 6)
 
 
 # ------------------------------------------------------------------ checker mode: verify / point validity from the primitives
@@ -627,12 +660,18 @@ def model_lines(case, impl):
         o = impl[i] if i < len(impl) else ""
         if op.startswith("pv "):
             res.append(op + "".join(" " + t for t in o.split() if t.startswith("vp=") or t.startswith("vf=")))
+        elif op.startswith("tp ") and o in ("D=" + w for w in TP_ENV) and " env=" not in op:
+            # a fact about the sandbox (name resolution, loopback families, scheduling): the model has no opinion
+            res.append(op + " env=" + o[2:])
         else:
             res.append(op)
     return res
 
 
 # ------------------------------------------------------------------ oracle
+
+TP_ENV = ("unresolved", "unavailable", "stalled")
+
 
 def kvs(tokens):
     return dict(t.split("=", 1) for t in tokens if "=" in t)
@@ -740,6 +779,24 @@ def oracle(case, out):
                 else:
                     if obs["D"][:2] != ("ok", "k" + a["l"]) or obs["L"][:2] != ("ok", "k" + a["d"]):
                         v("reject-valid", f"honest connection with matching dialed peer failed: {o!r}", i)
+            elif t[0] == "tp":
+                a = kvs(t[1:])
+                if not o.startswith("D=") or o[2:] in TP_ENV:
+                    continue            # the sandbox could not resolve / reach / schedule: a distinct observation, no verdict
+                what, _, rest = o[2:].partition(":")
+                connected = what in ("opened", "established")
+                where = f"TcpTransport::{a['via']} with a /{a['host']}/ address"
+                if a["exp"] not in ("none", a["l"]):
+                    if connected:
+                        v("connection", f"{where} naming the peer of key {a['exp']} yielded a connection ({o!r}) although the "
+                          f"node there proved the identity of key {a['l']}", i)
+                    elif rest != "peer-id-mismatch":
+                        v("error-class", f"{where}: expected PeerIdMismatch, got {o!r}", i)
+                else:
+                    if connected and rest != "k" + a["l"]:
+                        v("wrong-identity", f"{where}: connection reported for {rest}, the listener is k{a['l']}", i)
+                    elif not connected:
+                        v("reject-valid", f"{where} {'naming the listener' if a['exp'] != 'none' else 'without /p2p'} failed: {o!r}", i)
         except (ValueError, IndexError, KeyError, TypeError):
             continue
     return bad
@@ -765,11 +822,16 @@ def stats(case, out, acc):
             bump(acc, "rg:" + o.split()[0].split("@")[0].split(":k")[0])
         elif w[0] == "nc":
             bump(acc, "nc:" + " ".join(x.split("@")[0].split(":k")[0] for x in o.split()))
+        elif w[0] == "tp":
+            a = kvs(w[1:])
+            exp = "none" if a.get("exp") == "none" else "listener" if a.get("exp") == a.get("l") else "other"
+            bump(acc, f"tp:{a.get('via')}:{a.get('host')}:exp-{exp}:" + o.split(":k")[0])
     bump(acc, "cases")
 
 
 def nontrivial(case, out):
-    return any(("ok " in o or "ok:" in o) for o in out) and any("err" in o for o in out)
+    return any(("ok " in o or "ok:" in o or "opened:" in o or "established:" in o) for o in out) and \
+        any(("err" in o or "fail:" in o) for o in out)
 
 
 def matches_known(k, v):
